@@ -1,86 +1,129 @@
-From Coq Require Import List ZArith Lia Arith Bool ZifyBool.
+(* C15 — executable model of outrank/algorithms/sketches/counting_cms.py (CountMinSketch).
+   No proofs here: the model must still run when a proof breaks.
+
+   Items are harness-assigned ids (N): equality of ids = Python equality of the items.
+   [pre i x] is the hash oracle: the value  x_hash + seed_i  that cms_hash computes before the
+   final  % width ; it is a Section variable and the theorems hold for EVERY function.
+   The matrix is the dense depth x width array of the code, as list (list Z).
+   int32 wrap-around is outside the property: cells are Z. *)
+From Coq Require Import List ZArith NArith Arith Bool.
 Import ListNotations.
 Open Scope Z_scope.
 
-(* count-min sketch as a function row -> column -> Z; loc is ANY hash (Section oracle) *)
 Section CMS.
-  Variable item : Type.
-  Variable depth : nat.
-  Variable width : nat.
-  Variable loc : nat -> item -> nat.            (* cms_hash(x, seeds[i], width) *)
-  Hypothesis loc_lt : forall i x, (loc i x < width)%nat.
-  Variable ieqb : item -> item -> bool.
-  Hypothesis ieqb_spec : forall a b, ieqb a b = true <-> a = b.
+  Variable depth width : nat.
+  Variable pre : nat -> N -> N.
 
-  Definition mat := nat -> nat -> Z.
-  Definition upd (M : mat) (x : item) (d : Z) : mat :=
-    fun i j => if (i <? depth)%nat && (j =? loc i x)%nat then M i j + d else M i j.
-  Definition run (ops : list (item * Z)) : mat := fold_left (fun M op => upd M (fst op) (snd op)) ops (fun _ _ => 0).
-  Definition true_weight (x : item) (ops : list (item * Z)) : Z :=
-    fold_right (fun op a => if ieqb (fst op) x then snd op + a else a) 0 ops.
-  Definition total (ops : list (item * Z)) : Z := fold_right (fun op a => snd op + a) 0 ops.
-  Definition nonneg (ops : list (item * Z)) := Forall (fun op => 0 <= snd op) ops.
-  Fixpoint rowsum (M : mat) (i : nat) (w : nat) : Z := match w with O => 0 | S k => M i k + rowsum M i k end.
+  (* cms_hash(x, hash_seeds[i], width) *)
+  Definition loc (i : nat) (x : N) : nat := N.to_nat (pre i x mod N.of_nat width).
 
-  (* cell-level characterisation: cell (i, j) holds the total weight of the items hashing to it *)
-  Definition cell_weight (i j : nat) (ops : list (item * Z)) : Z :=
-    fold_right (fun op a => if (j =? loc i (fst op))%nat then snd op + a else a) 0 ops.
+  Definition matrix := list (list Z).
 
-  Lemma run_cell ops : forall M0 i j, (i < depth)%nat ->
-    fold_left (fun M op => upd M (fst op) (snd op)) ops M0 i j = M0 i j + cell_weight i j ops.
-  Proof.
-    induction ops as [|[x d] ops IH]; intros M0 i j Hi; cbn [fold_left cell_weight fold_right fst snd]; [lia|].
-    rewrite IH by exact Hi. unfold upd. apply Nat.ltb_lt in Hi. rewrite Hi. cbn [andb]. unfold cell_weight.
-    destruct (j =? loc i x)%nat; lia.
-  Qed.
+  (* M[i, location] += delta, one row *)
+  Fixpoint bump (row : list Z) (j : nat) (d : Z) : list Z :=
+    match row, j with
+    | [], _ => []
+    | a :: r, O => (a + d) :: r
+    | a :: r, S k => a :: bump r k d
+    end.
 
-  Lemma cell_ge_true ops x i : nonneg ops -> true_weight x ops <= cell_weight i (loc i x) ops.
-  Proof.
-    induction 1 as [|[y d] ops Hd _ IH]; cbn [true_weight cell_weight fold_right fst snd] in *; [lia|].
-    destruct (ieqb y x) eqn:E.
-    - apply ieqb_spec in E. subst y. rewrite Nat.eqb_refl. fold (true_weight x ops). fold (cell_weight i (loc i x) ops). lia.
-    - fold (true_weight x ops). fold (cell_weight i (loc i x) ops). destruct (loc i x =? loc i y)%nat; lia.
-  Qed.
-  Lemma cell_le_total ops i j : nonneg ops -> cell_weight i j ops <= total ops.
-  Proof.
-    induction 1 as [|[y d] ops Hd _ IH]; cbn [total cell_weight fold_right fst snd] in *; [lia|].
-    fold (cell_weight i j ops). fold (total ops). destruct (j =? loc i y)%nat; lia.
-  Qed.
+  (* for i in prange(depth): ...   (prange without parallel=True is range) *)
+  Fixpoint add_rows (i : nat) (M : matrix) (x : N) (d : Z) : matrix :=
+    match M with
+    | [] => []
+    | row :: rest => bump row (loc i x) d :: add_rows (S i) rest x d
+    end.
 
-  (* C15_lower / C15_upper for every row, hence for the minimum over rows *)
-  Theorem cms_bounds ops x i : nonneg ops -> (i < depth)%nat ->
-    true_weight x ops <= run ops i (loc i x) <= total ops.
-  Proof.
-    intros Hn Hi. unfold run. rewrite run_cell by exact Hi. cbn.
-    pose proof (cell_ge_true ops x i Hn). pose proof (cell_le_total ops i (loc i x) Hn). lia.
-  Qed.
+  Definition add (M : matrix) (x : N) (d : Z) : matrix := add_rows 0 M x d.
 
-  (* C15_rows: each row sums to the total weight *)
-  Lemma below_S i k ops :
-    fold_right (fun op a => if (k =? loc i (fst op))%nat then snd op + a else a) 0 ops
-    + fold_right (fun op a => if (loc i (fst op) <? k)%nat then snd op + a else a) 0 ops
-    = fold_right (fun op a => if (loc i (fst op) <? S k)%nat then snd op + a else a) 0 ops.
-  Proof.
-    induction ops as [|[y d] ops IHo]; cbn [fold_right fst snd]; [reflexivity|].
-    rewrite <- IHo.
-    repeat match goal with |- context [if ?b then _ else _] => destruct b eqn:? end; lia.
-  Qed.
-  Lemma rowsum_cell i ops : forall w, rowsum (fun i j => cell_weight i j ops) i w
-     = fold_right (fun op a => if (loc i (fst op) <? w)%nat then snd op + a else a) 0 ops.
-  Proof.
-    induction w as [|k IH]; cbn [rowsum].
-    - induction ops as [|op ops IHo]; cbn [fold_right]; [reflexivity|]. exact IHo.
-    - rewrite IH. unfold cell_weight. apply below_S.
-  Qed.
-  Theorem cms_rowsum ops i : (i < depth)%nat -> rowsum (run ops) i width = total ops.
-  Proof.
-    intros Hi.
-    assert (E : forall w, rowsum (run ops) i w = rowsum (fun i j => cell_weight i j ops) i w).
-    { induction w as [|k IH]; cbn [rowsum]; [reflexivity|]. rewrite IH. unfold run. rewrite run_cell by exact Hi. lia. }
-    rewrite E, rowsum_cell. clear E. unfold total. induction ops as [|[y d] ops IH]; cbn [fold_right fst snd]; [reflexivity|].
-    rewrite IH. pose proof (loc_lt i y) as Hl.
-    repeat match goal with |- context [if ?b then _ else _] => destruct b eqn:? end; lia.
-  Qed.
+  (* np.zeros((depth, width)) *)
+  Definition init : matrix := repeat (repeat 0 width) depth.
+
+  (* add(x, delta)  |  batch_add(lst, delta) = for x in lst: add(x, delta) *)
+  Inductive op := Add (x : N) (d : Z) | Batch (xs : list N) (d : Z).
+
+  Definition step (M : matrix) (o : op) : matrix :=
+    match o with
+    | Add x d => add M x d
+    | Batch xs d => fold_left (fun M x => add M x d) xs M
+    end.
+
+  Definition run (ops : list op) : matrix := fold_left step ops init.
+
+  (* the matrix after every prefix *)
+  Fixpoint trace (M : matrix) (ops : list op) : list matrix :=
+    match ops with
+    | [] => []
+    | o :: r => let M' := step M o in M' :: trace M' r
+    end.
+
+  Definition cell (M : matrix) (i j : nat) : Z := nth j (nth i M []) 0.
+
+  Fixpoint minl (a : Z) (l : list Z) : Z :=
+    match l with [] => a | b :: r => minl (Z.min a b) r end.
+
+  (* M[i][cms_hash(x, hash_seeds[i], width)] for i in range(depth) *)
+  Definition probes (M : matrix) (x : N) : list Z := map (fun i => cell M i (loc i x)) (seq 0 depth).
+
+  (* min(...) ; Python raises on an empty sequence (depth = 0) -> None *)
+  Definition query (M : matrix) (x : N) : option Z :=
+    match probes M x with
+    | [] => None
+    | a :: r => Some (minl a r)
+    end.
+
+  (* ---- specification side: the stream of (item, weight) an op list stands for ---- *)
+  Definition flat1 (o : op) : list (N * Z) :=
+    match o with Add x d => [(x, d)] | Batch xs d => map (fun x => (x, d)) xs end.
+  Definition flat (ops : list op) : list (N * Z) := flat_map flat1 ops.
+
+  Definition true_weight (x : N) (s : list (N * Z)) : Z :=
+    fold_right (fun e a => if N.eqb (fst e) x then snd e + a else a) 0 s.
+  Definition total (s : list (N * Z)) : Z := fold_right (fun e a => snd e + a) 0 s.
+  Definition nonneg (s : list (N * Z)) : Prop := Forall (fun e => 0 <= snd e) s.
+  Definition sumz (l : list Z) : Z := fold_right Z.add 0 l.
+  Definition rowsum (M : matrix) (i : nat) : Z := sumz (nth i M []).
+  (* total weight of the stream elements that hash to column j in row i *)
+  Definition cell_weight (i j : nat) (s : list (N * Z)) : Z :=
+    fold_right (fun e a => if Nat.eqb j (loc i (fst e)) then snd e + a else a) 0 s.
+
+  (* ---- observable printed for the harness, after every prefix:
+          queries of the listed items, the listed cells, the row sums, the shape ---- *)
+  Definition oz (o : option Z) : Z := match o with Some q => q | None => -1 end.
+  Definition obs1 (items : list N) (cells : list (nat * nat)) (M : matrix) : list Z * list Z * list Z :=
+    (map (fun x => oz (query M x)) items,
+     map (fun ij => cell M (fst ij) (snd ij)) cells,
+     map (fun i => rowsum M i) (seq 0 depth)).
+  Definition shape_ok (M : matrix) : bool :=
+    Nat.eqb (length M) depth && forallb (fun r => Nat.eqb (length r) width) M.
+  Definition obs (items : list N) (cells : list (nat * nat)) (ops : list op) :=
+    let tr := trace init ops in
+    (map (obs1 items cells) tr, forallb shape_ok tr).
+
+  (* ---- property-level checker evaluated on what the IMPLEMENTATION returned:
+          per prefix the queries of [items] and the row sums ---- *)
+  Definition check1 (items : list N) (s : list (N * Z)) (qs rs : list Z) : bool :=
+    let t := total s in
+    Nat.eqb (length qs) (length items) &&
+    forallb (fun xq => (true_weight (fst xq) s <=? snd xq) && (snd xq <=? t)) (combine items qs) &&
+    Nat.eqb (length rs) depth &&
+    forallb (fun r => r =? t) rs.
+
+  Fixpoint checkb (items : list N) (s : list (N * Z)) (ops : list op) (o : list (list Z * list Z)) : bool :=
+    match ops, o with
+    | [], [] => true
+    | op1 :: r, (qs, rs) :: o' =>
+        let s' := s ++ flat1 op1 in
+        check1 items s' qs rs && checkb items s' r o'
+    | _, _ => false
+    end.
+
+  (* per-prefix verdicts, to cut a failing stream at its first failing prefix *)
+  Fixpoint verdicts (items : list N) (s : list (N * Z)) (ops : list op) (o : list (list Z * list Z)) : list bool :=
+    match ops, o with
+    | op1 :: r, (qs, rs) :: o' =>
+        let s' := s ++ flat1 op1 in
+        check1 items s' qs rs :: verdicts items s' r o'
+    | _, _ => []
+    end.
 End CMS.
-Print Assumptions cms_bounds.
-Print Assumptions cms_rowsum.
